@@ -1262,7 +1262,9 @@ func c10Boundary(r *c10Rand, c *c10Case, self, other common.Address) (code []byt
 		default:
 			a.op([]OpCode{PUSH1, MSIZE, ADDRESS, POP, ADD, JUMPDEST, CALLDATASIZE, ISZERO, PUSH32}[r.Intn(9)])
 		}
-		a.raw(0)
+		// a transient 1025th item would go unnoticed if the program stopped here: every opcode
+		// re-validates the stack, POP accepts 1025 items
+		a.op(POP, POP, POP)
 		a.push(1).push(0).op(SSTORE).op(STOP)
 	case 2: // call depth recursion until the limit
 		name = "call-depth-1024"
